@@ -108,7 +108,7 @@ def gen_doc(rng, *, kern_only=False, max_spines=4, splits=True, core=False, comm
 
     if comments and rng.random() < 0.4:
         for _ in range(rng.randint(1, 2)):
-            g.lines.append(('global', rng.choice(['!!!COM: Bach', '!!!OTL: Title', '!! a comment', '!!!AGN: x', '!!!COM: Anon'])))
+            g.lines.append(('global', rng.choice(['!!!COM: Bach', '!!!OTL: Title', '!! a comment', '!!!AGN: x', '!!!COM: Anon', '!!!!SEGMENT: part-1.krn', '!!!!COM: universal'])))
             g.flags.add('comment-before')
     g.lines.append(('row', [Cell(t, 'header', i, t) for i, t in enumerate(types)]))
 
@@ -191,11 +191,22 @@ def gen_doc(rng, *, kern_only=False, max_spines=4, splits=True, core=False, comm
         e = k + 1
         while e + 1 < len(paths) and paths[e + 1][0] == paths[k][0] and rng.random() < 0.5:
             e += 1
+        runs = [(k, e)]
+        # now and then OTHER spines join on the same line (two runs of *v side by side: *v *v *v *v)
+        for k2 in join_points():
+            if paths[k2][0] != paths[k][0] and all(paths[k2][0] != paths[a][0] for a, _ in runs) and rng.random() < 0.45:
+                runs.append((k2, k2 + 1))
+        if len(runs) > 1:
+            g.flags.add('joins-side-by-side')
+        inrun = set()
+        for a, b_ in runs:
+            inrun |= set(range(a, b_ + 1))
         cells = []
         for i, (sp, ht) in enumerate(paths):
-            cells.append(Cell('*v' if k <= i <= e else '*', 'spineop' if k <= i <= e else 'interp', sp, ht))
+            cells.append(Cell('*v' if i in inrun else '*', 'spineop' if i in inrun else 'interp', sp, ht))
         g.lines.append(('row', cells))
-        paths = paths[:k + 1] + paths[e + 1:]
+        for a, b_ in sorted(runs, reverse=True):
+            paths = paths[:a + 1] + paths[b_ + 1:]
         g.flags.add('join')
         if e > k + 1:
             g.flags.add('wide-join')
@@ -209,7 +220,7 @@ def gen_doc(rng, *, kern_only=False, max_spines=4, splits=True, core=False, comm
         for _ in range(rng.randint(1, 3)):
             r = rng.random()
             if comments and r < 0.06:
-                g.lines.append(('global', rng.choice(['!! inside', '!!!ONB: note', '!!!COM: later'])))
+                g.lines.append(('global', rng.choice(['!! inside', '!!!ONB: note', '!!!COM: later', '!!!!COM: inside'])))
                 g.flags.add('comment-inside')
                 continue
             if comments and r < 0.12:
